@@ -17,6 +17,7 @@ func C08(c *Ctx) {
 	r.NotDecided = ":reverse shapes beyond what the README shows; correctness of the rendered type names for every Go type (TypeName is checked for its shape only)."
 
 	c.tplC08()
+	c.importKeyRule("C08-4")
 
 	r.Rule("C08-2", "legality: notation parser succeeds only if ¬(Reverse ∧ Style==return); CreateFunction only if ¬(Reverse ∧ 0<len(additional args)) ∧ ¬(Receiver≠\"\" ∧ source type external); parseMethod only with ≥1 parameter and ≥1 result")
 	if fn := c.notationParser(); fn != nil {
